@@ -22,6 +22,9 @@ EXPLANATION = (
     'agreement of the two hand-written codecs; value-level fidelity of json/'
     'gzip is library semantics (not decided).'
     " R16.6: the serialiser visits every suboperation and write()'s non-root set is built unconditionally from every operation.")
+# round 3/4 additions
+EXPLANATION += (
+    " R16.1: a key emitted under a truthiness guard is admissible only for a bool flag. R16.3 includes the sibling agreement of the cache's construction sites (a set is never replaced by raw decoded JSON). R16.4 includes R2.6b.")
 
 NOT_PERSISTED = {'is_finished': 'always True when read back'}
 
